@@ -5,7 +5,6 @@ import Mathlib.Tactic.Ring
 import Mathlib.Tactic.Positivity
 import Mathlib.Tactic.NormNum
 import Mathlib.Algebra.Order.Field.Power
-import Mathlib.Analysis.SpecialFunctions.Pow.Real
 
 namespace F32
 open Real
